@@ -1554,6 +1554,9 @@ class Irc(IrcCommandDispatcher, log.Firewalled):
                   self.network, self.nick)
 
         self.sendMsg(ircmsgs.nick(self.nick))
+        # The nick we start with counts as tried: otherwise _getNextNick falls
+        # back to it once the alternates are exhausted and do43x gives up.
+        self.triedNicks.add(self.nick)
 
         log.debug('%s: Sending USER command, ident is %s, user is %s.',
                   self.network, self.ident, self.user)
